@@ -101,6 +101,32 @@ def main():
                 rep.violation("nondeterministic-output", "populated-directory",
                               "%s: compiling into a populated directory gives different files" % name,
                               {"schema": name, "schema_xml": xml})
+            # populated with *truncated* and same-length-different files (what an earlier failed run or an
+            # older schema version leaves behind): the result must still be the complete new output
+            for variant in ("prefix", "empty", "same-length"):
+                dv = os.path.join(sd, "populated-" + variant)
+                shutil.copytree(ref_dir, dv)
+                vr = C.rng_for(rep.seed, "c20", name, variant)
+                for rel_p, content in ref.items():
+                    fp = os.path.join(dv, rel_p)
+                    if variant == "prefix":
+                        new = content[:vr.randrange(0, len(content))] if vr.random() < 0.7 else content
+                    elif variant == "empty":
+                        new = b"" if vr.random() < 0.5 else content
+                    else:
+                        new = bytes((b ^ 1) if i % 97 == 5 else b for i, b in enumerate(content))
+                    with open(fp, "wb") as f:
+                        f.write(new)
+                rcv, outv, _ = run_sbeppc(rel, xmlp, dv)
+                rep.evaluation()
+                tv = read_tree(dv)
+                bad = [k for k, v in ref.items() if tv.get(k) != v]
+                if rcv != 0 or bad:
+                    rep.violation("nondeterministic-output", "populated-directory-" + variant,
+                                  "%s: compiling into a directory holding %s versions of the files: exit %s, %d file(s) differ "
+                                  "from a fresh compile (first: %s)" % (name, variant, rcv, len(bad), bad[:1]),
+                                  {"schema": name, "schema_xml": xml, "variant": variant, "differing": bad[:10]})
+                rep.count("files_compared", len(ref))
             d4 = os.path.join(sd, "san")
             os.makedirs(d4)
             rc4, out4, _ = run_sbeppc(san, xmlp, d4, env=build.san_env())
@@ -144,12 +170,28 @@ def main():
             inj_err = re.search(r"^INJECTED \d+ \S+ errno=(\d+)", lg, re.M)
             inj_short = re.search(r"^INJECTED \d+ \S+ short", lg, re.M)
             tree = read_tree(od) if rc == 0 else None
+            rerun = None
+            if (inj_err or inj_short) and rc != 0 and k % 5 == 1 and kind in ("28", "short-then-28"):
+                # history: the failed run left whatever it left; a later fault-free run into the same directory
+                # must succeed and produce the complete output
+                rc2, out2, to2 = run_sbeppc(rel, xmlp, od)
+                rerun = (rc2, read_tree(od) if rc2 == 0 else None, out2[-300:])
             shutil.rmtree(od, ignore_errors=True)
-            return job, rc, out, to, bool(inj_err), bool(inj_short), tree
+            return job, rc, out, to, bool(inj_err), bool(inj_short), tree, rerun
 
-        for job, rc, out, to, inj_err, inj_short, tree in C.pmap(one, jobs):
+        for job, rc, out, to, inj_err, inj_short, tree, rerun in C.pmap(one, jobs):
             si, name, xml, xmlp, sd, k, kind, callname = job
             rep.evaluation()
+            if rerun is not None:
+                rep.evaluation()
+                rep.count("reruns_after_failed_run")
+                rc2, tree2, tail2 = rerun
+                if rc2 != 0 or tree2 is None or any(tree2.get(p_) != v for p_, v in refs[si].items()):
+                    nbad = len([p_ for p_, v in refs[si].items() if (tree2 or {}).get(p_) != v])
+                    rep.violation("nondeterministic-output", "rerun-after-failed-run",
+                                  "%s: after a run that failed at %s call #%d (kind %s), a fault-free run into the same directory "
+                                  "exits %s and %d file(s) differ from a fresh compile" % (name, callname, k, kind, rc2, nbad),
+                                  {"schema": name, "schema_xml": xml, "k": k, "kind": kind, "call": callname, "second_run_output": tail2})
             replay = {"schema": name, "schema_xml": xml, "k": k, "kind": kind, "call": callname, "exit": rc,
                       "stdout": out[-1500:],
                       "how": "LD_PRELOAD=<ioshim.so> VERIF_SHIM_DIR=<out> VERIF_SHIM_K=%d VERIF_SHIM_KIND=%s sbeppc --output-dir <out> schema.xml" % (k, kind)}
